@@ -177,6 +177,9 @@ pub fn run(r: &mut Rec) {
             big_case(r, &format!("big#{} rep {}", bi, rep), d, sign, bi * 3 + rep);
         }
     }
+    // structured operands where the value/reference forms take different code paths
+    crate::drivers::addsub::chains(r, if r.thorough { 14 } else { 9 }, r.thorough);
+    crate::drivers::bits::pow64_family(r);
     // Sum / Product over mixed operands
     for k in 0..(if r.thorough { 60 } else { 16 }) {
         if !r.case(&format!("sum/product {}", k)) {
